@@ -278,7 +278,10 @@ def _keywords(ctx):
     return kws
 
 
-PROPERTIES["C08"]["rules"].append(("FFISIG", lambda ctx: rule_ffisig(ctx.lib, ctx.nbt)))
+FFISIG_WITNESS = {
+    "fn:show:dispatch": "`numbat --no-prelude`: `use plot::bar_chart`, `struct LinePlot { a: Scalar }`, `show(LinePlot { a: 1 })` panics at ffi/plot.rs (`Option::unwrap()` on `None`); with the right field names but other types: `Expected value to be a quantity`",
+}
+PROPERTIES["C08"]["rules"].append(("FFISIG", lambda ctx: rule_ffisig(ctx.lib, ctx.nbt, FFISIG_WITNESS)))
 PROPERTIES["C08"]["explanation"] += " (FFISIG) For every native function the sequence of argument extractions in its Rust body (pop_front + unsafe_as_{quantity,string,list,datetime,bool}, as_scalar().unwrap()) agrees in number and kind with its body-less declaration in the .nbt modules and the arity registered in ffi::functions(), so those panics are unreachable for type-checked calls."
 PROPERTIES["C13"]["rules"] += [
     ("UNITFORMS", lambda ctx: nbt_rules.rule_unitforms(ctx.nbt, _prefixes(ctx), _keywords(ctx))),
